@@ -1043,8 +1043,16 @@ class Engine:
             c = truth(self.ev(node.test, body_st))
             body_st.pc.append(c)
         pnum = 0
+        gb = self.c.ghost_before.get('body:' + key)
+        if gb:
+            self.used_ghost.add(('before', 'body:' + key))
+            self.run_ghost(gb, body_st)
+        ga = self.c.ghost_after.get('body:' + key)
         for s2, out in self.block(node.body, body_st):
             pnum += 1
+            if ga and out in ('fall', 'continue'):
+                self.used_ghost.add(('after', 'body:' + key))
+                self.run_ghost(ga, s2)
             if out in ('fall', 'continue'):
                 for cname, g in self.inv_clauses(spec, s2, {'_it': itc + 1} if is_for else None):
                     self.oblige(s2, '%s/preserve/%s/p%d' % (lname, cname, pnum), g)
@@ -1193,8 +1201,14 @@ def _sb_forall(eng, st, node):
     for n, v in zip(names, vs):
         st.ghost[n] = v
     shadow = {n: st.env.pop(n) for n in names if n in st.env}
+    pats = None
     try:
         body = truth(eng.ev(lam.body, st))
+        for kw in node.keywords:
+            if kw.arg == 'pattern':
+                pv = eng.ev(kw.value, st)
+                pv = list(pv) if isinstance(pv, (tuple, list)) else [pv]
+                pats = [z3.MultiPattern(*[to_z3(t) for t in pv])] if len(pv) > 1 else [to_z3(pv[0])]
     finally:
         for n in names:
             if saved[n] is None:
@@ -1202,12 +1216,16 @@ def _sb_forall(eng, st, node):
             else:
                 st.ghost[n] = saved[n]
         st.env.update(shadow)
+    if pats is not None:
+        return z3.ForAll(vs, body, patterns=pats)
     return z3.ForAll(vs, body)
 
 
 def _sb_implies(eng, st, node):
-    a, b = [truth(eng.ev(x, st)) for x in node.args]
-    return z3.Implies(a, b)
+    a = truth(eng.ev(node.args[0], st))
+    if z3.is_false(z3.simplify(a)):
+        return z3.BoolVal(True)          # antecedent concretely false: the consequent is not evaluated (it may be ill-typed there)
+    return z3.Implies(a, truth(eng.ev(node.args[1], st)))
 
 
 def _sb_iff(eng, st, node):
@@ -1514,6 +1532,16 @@ def _sb_lemma_q_from_aggregate(eng, st, node):
     return z3.Implies(hyp, udiv(trace1(w, m), s_) - umul(g, sumdot(X, X, m)) == Qmod(W, c, g, n))
 
 
+def _sb_result_is_empty(eng, st, node):
+    r = st.ghost.get('_result')
+    return isinstance(r, (list, tuple)) and len(r) == 0
+
+
+def _sb_hopsint(eng, st, node):
+    f = st.ghost.get('hint')
+    return f(to_z3(eng.ev(node.args[0], st), INT), to_z3(eng.ev(node.args[1], st), INT))
+
+
 def _sb_same_object(eng, st, node):
     a, b = eng.ev(node.args[0], st), eng.ev(node.args[1], st)
     return isinstance(a, Ref) and isinstance(b, Ref) and a.oid == b.oid
@@ -1552,7 +1580,7 @@ SPEC_BUILTINS = {
     'totF': _mk_specfn(totF, 1), 'totFp': _mk_specfn(totFp, 1), 'totFn': _mk_specfn(totFn, 1),
     'rpos': _mk_specfn(rpos, 2), 'rneg': _mk_specfn(rneg, 2), 'cpos': _mk_specfn(cpos, 2), 'cneg': _mk_specfn(cneg, 2),
     'dot2': _sb_dot2, 'isperm': _sb_isperm, 'same_object': _sb_same_object, 'unchanged': _sb_unchanged,
-    'snapshot': _sb_snapshot, 'argref': _sb_argref, 'lam1': _sb_lam1, 'lam2': _sb_lam2, 'unique_witness': _sb_unique_witness, 'member': _sb_member, 'dset': _sb_dset(dset), 'rset': _sb_dset(rset), 'wset': _sb_dset(wset), 'cntb': _sb_cntb,
+    'snapshot': _sb_snapshot, 'argref': _sb_argref, 'lam1': _sb_lam1, 'result_is_empty': _sb_result_is_empty, 'hopsint': _sb_hopsint, 'lam2': _sb_lam2, 'unique_witness': _sb_unique_witness, 'member': _sb_member, 'dset': _sb_dset(dset), 'rset': _sb_dset(rset), 'wset': _sb_dset(wset), 'cntb': _sb_cntb,
     'modsum': _mk_mod(modsum, 3), 'modsumT': _mk_mod(modsumT, 3), 'degsum': _mk_mod(degsum, 2), 'degsumT': _mk_mod(degsumT, 2), 'agg': _mk_mod(agg, 3),
     'Qmod': _sb_Qmod, 'tsum': _mk_specfn(tsum, 1), 'csum': _mk_specfn(csum, 2), 'lemma_modularity': _sb_lemma_modularity, 'lemma_knm_sums': _sb_lemma_knm_sums, 'lemma_relabel': _sb_lemma_relabel, 'lemma_q_from_aggregate': _sb_lemma_q_from_aggregate,
     'lemma_masked_degree': _sb_lemma_masked_degree, 'lemma_degree_monotone': _sb_lemma_degree_monotone, 'result': _sb_result, 'raised': _sb_raised, 'shape_is': _sb_shape_is,
